@@ -282,6 +282,15 @@ def observeForward (m : MonState) (l : Nat) (f : Pub) : MonState × Fail :=
     | some i, some a =>
       match lm.subs[i]? with
       | some s =>
+        -- the attribution is only as good as the pointers of the link's OTHER subscriptions: when
+        -- another subscription of the same QoS also holds this message in its log, the forward may
+        -- have come through that one (its pointer can lag after an earlier ambiguity): then the
+        -- group delivery is only "maybe"
+        let overlap := (lm.subs.zipIdx).any (fun (s', j) => j != i && s'.qos == f.qos && s'.closedAt.isNone &&
+          (histOf m s'.idx).any (fun e => sameMessage f e))
+        if overlap && s.group.isSome then
+          ({ m with groups := m.groups.map (fun x => if some x.name == s.group && x.idx == s.idx then { x with maybe := x.maybe ++ [a] } else x) }, none)
+        else
         match s.group with
         | some g =>
           match m.groups.find? (fun gm => gm.name == g && gm.idx == s.idx) with
@@ -302,7 +311,7 @@ def observeForward (m : MonState) (l : Nat) (f : Pub) : MonState × Fail :=
               (m, some ("c17-delivered-twice", s!"entry {a} (payload {showBytes f.payload}, qos {f.qos}, pkid {f.pkid}) of group {g} was already forwarded to a member before the group emptied; the group re-created by a resumed session starts at that session's saved cursor"))
             else
             if gm.delivered.contains a && !gm.fuzzy then
-              let why := if gm.rewinds.any (fun r => r.1 ≤ a && a ≤ r.2)
+              let why := if !gm.rewinds.isEmpty
                 then " (forwarded again after the group's cursor was set back to the oldest unacknowledged entry of a persistent member that left)" else ""
               (m, some ("c17-delivered-twice", s!"entry {a} (payload {showBytes f.payload}, qos {f.qos}, pkid {f.pkid}) of group {g} was already forwarded to a member{why}"))
             else
